@@ -26,6 +26,7 @@ type ReplayCase struct {
 	Repeat  int                 `json:"repeat"`            // >1: statistical replay for schedule/select-dependent cases
 	WantID  string              `json:"want_id,omitempty"` // stop repeating once this failure id shows up
 	Timeout int                 `json:"timeout_s"`
+	Race    bool                `json:"race,omitempty"` // run under the Go race detector; a report confirms the case
 }
 
 type ReplayResult struct {
@@ -39,6 +40,8 @@ type ReplayResult struct {
 	Reached  []string
 	Iter     int
 	Raw      string
+	Race     bool   // the Go race detector reported a data race in this case's process
+	RaceText string // beginning of its first report
 }
 
 // modelToVals turns {"tag#k": v} into tag -> ordered values.
@@ -339,6 +342,21 @@ func RunReplays(repo, harnessDir, pkgSub string, cases []ReplayCase, keepDir str
 	var out bytes.Buffer
 	bo, runErr := build.CombinedOutput()
 	out.Write(bo)
+	raceBin := ""
+	for _, c := range cases {
+		if c.Race && runErr == nil && raceBin == "" {
+			raceBin = filepath.Join(dir, "replay.race.test")
+			rb := exec.Command("go", "test", "-race", "-c", "-o", raceBin, "-vet=off", "-overlay", ovFile, ".")
+			rb.Dir = pkgDir
+			rb.Env = env
+			if o, err := rb.CombinedOutput(); err != nil {
+				out.Write(o)
+				raceBin = ""
+				break
+			}
+		}
+	}
+	raceSeen := map[string]string{}
 	if runErr == nil {
 		var mu sync.Mutex
 		var wg sync.WaitGroup
@@ -358,12 +376,19 @@ func RunReplays(repo, harnessDir, pkgSub string, cases []ReplayCase, keepDir str
 			go func() {
 				defer wg.Done()
 				defer func() { <-sem }()
-				cmd := exec.Command(bin, "-test.run", "^TestVerifReplay$", "-test.v", "-test.timeout", fmt.Sprintf("%ds", to*rep+60))
+				useBin := bin
+				if c.Race && raceBin != "" {
+					useBin = raceBin
+				}
+				cmd := exec.Command(useBin, "-test.run", "^TestVerifReplay$", "-test.v", "-test.timeout", fmt.Sprintf("%ds", to*rep+60))
 				cmd.Dir = pkgDir
 				cmd.Env = append(append([]string{}, env...), "VERIF_CASE="+c.Name)
 				o, err := cmd.CombinedOutput()
 				mu.Lock()
 				out.Write(o)
+				if i := bytes.Index(o, []byte("WARNING: DATA RACE")); i >= 0 && c.Race {
+					raceSeen[c.Name] = truncate(string(o[i:]), 1500)
+				}
 				if !bytes.Contains(o, []byte("VERIF-CASE")) && os.Getenv("SYMGO_DEBUG") != "" {
 					fmt.Fprintf(os.Stderr, "replay case %s produced no result: err=%v\n%s\n", c.Name, err, tail(string(o), 1500))
 				}
@@ -393,6 +418,13 @@ func RunReplays(repo, harnessDir, pkgSub string, cases []ReplayCase, keepDir str
 		}
 		res[o.Name] = &ReplayResult{Name: o.Name, Ran: true, Failures: o.Failures, Panic: o.Panic, Hang: o.Hang, Short: o.Short,
 			Observed: o.Observed, Reached: o.Reached, Iter: o.Iter, Raw: mm[1]}
+	}
+	for name, txt := range raceSeen {
+		if res[name] == nil {
+			res[name] = &ReplayResult{Name: name, Ran: true}
+		}
+		res[name].Race = true
+		res[name].RaceText = txt
 	}
 	if os.Getenv("SYMGO_DEBUG") != "" {
 		fmt.Fprintf(os.Stderr, "replay: %d cases, %d result lines, %d parsed\n", len(cases), len(re.FindAllStringSubmatch(out.String(), -1)), len(res))
